@@ -123,6 +123,16 @@ def ev(e, env, resolver=None):
     if isinstance(e, ast.Call) and isinstance(e.func, ast.Name) and e.func.id in IDENTITY_CALLS \
             and len(e.args) == 1 and not e.keywords:
         return ev(e.args[0], env, resolver)
+    if isinstance(e, ast.Call) and isinstance(e.func, ast.Name) and e.func.id in ('max', 'min', 'abs') and not e.keywords and e.args:
+        vals = [ev(a, env, resolver) for a in e.args]
+        if e.func.id == 'abs' and len(vals) == 1:
+            return abs(vals[0])
+        if e.func.id in ('max', 'min') and len(vals) >= 2:
+            return max(vals) if e.func.id == 'max' else min(vals)
+    if isinstance(e, ast.Call) and isinstance(e.func, ast.Attribute) and e.func.attr == 'bit_length' and not e.args:
+        v = ev(e.func.value, env, resolver)
+        if isinstance(v, int):
+            return v.bit_length()
     raise NotPure(type(e).__name__)
 
 
